@@ -4,6 +4,8 @@
 // Pool of heap-allocated array objects addressed by handle k, of five KINDS
 //   v  Array<1,int,false>      m  Array<2,int,false>      a  Array<1,double,true> (its Storage registers gradients)
 //   s  SpecialMatrix<int,SymmEngine<ROW_LOWER_COL_UPPER>,false>      t  SpecialMatrix<int,BandEngine<ROW_MAJOR,1,1>,false>
+//   g  SpecialMatrix<int,BandEngine<ROW_MAJOR,0,0>,false> (DiagMatrix)   G  the same, double and ACTIVE   S  active symmetric matrix (double)
+//   p  Array<1,double,false> (what value() of an active vector is)
 // plus one std::vector<X> per kind whose elements are addressed by handle too, external blocks x owned by the harness
 // (plain heap blocks, or FixedArray<int,false,4> objects).  All operations are REAL library calls:
 //   reset                       delete everything, forget all tables, new recording
@@ -32,6 +34,10 @@
 //     sod i0 i1                 b.submatrix_on_diagonal(i0, i1)             (m, s, t) — bounds may be wrong
 //     rsh d0 d1                 b.reshape(d0, d1)                           (v)       — extents may be wrong / negative
 //     perm i0 i1                b.permute(i0, i1)                           (m)       — dimensions may repeat
+//     dm                        b.diag_matrix()                             (v -> g, a -> G)   a DiagMatrix VIEW of the vector
+//     il                        b.inactive_link() / value(b)                (a -> p; v, m, p, s, t, g -> same class)
+//   (tr also of s, S; diag / sod also of g, G, S; sl also of p)
+//   fdiag k x                   k := new DiagMatrix(F.diag_matrix())        over the FixedArray's own memory: no Storage
 //   used as   <fn> k b args         k := new V(view)
 //             link<fn> a b args     a >>= view                  (temporary bound to link(X&&))
 //             ac<fn> a b args       a = (const V&) view         (copy assignment)
@@ -118,9 +124,18 @@ typedef Array<2, int, false> IM;
 typedef Array<1, double, true> AV;
 typedef SpecialMatrix<int, internal::SymmEngine<ROW_LOWER_COL_UPPER>, false> IS;
 typedef SpecialMatrix<int, internal::BandEngine<ROW_MAJOR, 1, 1>, false> IT;
+typedef SpecialMatrix<int, internal::BandEngine<ROW_MAJOR, 0, 0>, false> IG;      // DiagMatrix: intVector::diag_matrix()
+typedef SpecialMatrix<double, internal::BandEngine<ROW_MAJOR, 0, 0>, true> AG;    // aVector::diag_matrix()
+typedef SpecialMatrix<double, internal::SymmEngine<ROW_LOWER_COL_UPPER>, true> AS; // an active special matrix
+typedef Array<1, double, false> DV;                                                // value(aVector)
 typedef FixedArray<int, false, 4> FV;
-enum { KV = 0, KM = 1, KA = 2, KS = 3, KT = 4, NKIND = 5 };
-static const char KCH[NKIND] = { 'v', 'm', 'a', 's', 't' };
+enum { KV = 0, KM = 1, KA = 2, KS = 3, KT = 4, KG = 5, KAG = 6, KAS = 7, KP = 8, NKIND = 9 };
+static const char KCH[NKIND] = { 'v', 'm', 'a', 's', 't', 'g', 'G', 'S', 'p' };
+static bool k_vec(int k) { return k == KV || k == KA || k == KP; }
+static bool k_symm(int k) { return k == KS || k == KAS; }
+static int k_band(int k) { return k == KT ? 1 : (k == KG || k == KAG) ? 0 : -1; }
+static bool k_active(int k) { return k == KA || k == KAG || k == KAS; }
+static bool k_special(int k) { return !(k_vec(k) || k == KM); }
 
 struct BadOp {};
 struct Geo { long d0, d1, s0, s1; };
@@ -128,27 +143,29 @@ struct Geo { long d0, d1, s0, s1; };
 // relative memory index (from data()) of every element, canonical order
 static std::vector<long> rel_cells(int kind, const Geo& g) {
   std::vector<long> c;
-  if (kind == KV || kind == KA) for (long k = 0; k < g.d0; ++k) c.push_back(k * g.s0);
+  if (k_vec(kind)) for (long k = 0; k < g.d0; ++k) c.push_back(k * g.s0);
   else if (kind == KM) { for (long i = 0; i < g.d0; ++i) for (long j = 0; j < g.d1; ++j) c.push_back(i * g.s0 + j * g.s1); }
-  else if (kind == KS) { for (long i = 0; i < g.d0; ++i) for (long j = 0; j <= i; ++j) c.push_back(i * g.s0 + j); }
-  else { for (long i = 0; i < g.d0; ++i) for (long j = 0; j < g.d0; ++j) if (i <= j + 1 && j <= i + 1) c.push_back(i * g.s0 + j); }
+  else if (k_symm(kind)) { for (long i = 0; i < g.d0; ++i) for (long j = 0; j <= i; ++j) c.push_back(i * g.s0 + j); }
+  else { long w = k_band(kind);
+    for (long i = 0; i < g.d0; ++i) for (long j = 0; j < g.d0; ++j) if (i <= j + w && j <= i + w) c.push_back(i * g.s0 + j); }
   return c;
 }
 // (i,j) of canonical element idx
 static void cell_ij(int kind, const Geo& g, long idx, long& i, long& j) {
   long n = 0;
-  if (kind == KV || kind == KA) { i = idx; j = 0; return; }
+  if (k_vec(kind)) { i = idx; j = 0; return; }
   if (kind == KM) { i = idx / g.d1; j = idx % g.d1; return; }
+  long w = k_band(kind);
   for (i = 0; i < g.d0; ++i) for (j = 0; j < g.d0; ++j) {
-    bool in = kind == KS ? j <= i : (i <= j + 1 && j <= i + 1);
+    bool in = k_symm(kind) ? j <= i : (i <= j + w && j <= i + w);
     if (in) { if (n == idx) return; ++n; }
   }
   throw BadOp();
 }
 static long extent_of(int kind, const Geo& g) {
-  if (kind == KV || kind == KA) return g.d0 == 0 ? 0 : (g.d0 - 1) * g.s0 + 1;
+  if (k_vec(kind)) return g.d0 == 0 ? 0 : (g.d0 - 1) * g.s0 + 1;
   if (kind == KM) return (g.d0 == 0 || g.d1 == 0) ? 0 : (g.d0 - 1) * g.s0 + (g.d1 - 1) * g.s1 + 1;
-  if (kind == KS) return g.d0 == 0 ? 0 : (g.d0 - 1) * g.s0 + g.d0;
+  if (k_symm(kind)) return g.d0 == 0 ? 0 : (g.d0 - 1) * g.s0 + g.d0;
   return g.d0 == 0 ? 0 : (g.d0 - 1) * (g.s0 + 1) + 1;
 }
 
@@ -185,6 +202,22 @@ template <> struct Tr<IT> { enum { kind = KT }; typedef int T;
   static void resize2(IT& o, long n0, long n1, bool) { o.resize((int)n0, (int)n1); }
   static void put(IT& o, long i, long j, long v) { o((int)i, (int)j) = (int)v; } };
 
+template <> struct Tr<DV> { enum { kind = KP }; typedef double T;
+  static Geo geo(const DV& o) { Geo g = { o.dimension(0), 0, o.offset(0), 0 }; return g; }
+  static DV* sized(long n) { return new DV((int)n); }
+  static void resize1(DV& o, long n, bool ints) { if (ints) o.resize((int)n); else o.resize(dimensions((int)n)); }
+  static void resize2(DV&, long, long, bool) { throw BadOp(); }
+  static void put(DV& o, long i, long, long v) { o((int)i) = (double)v; } };
+#define SPECIAL_TR(TYPE, KIND, ELEM) template <> struct Tr<TYPE> { enum { kind = KIND }; typedef ELEM T; \
+  static Geo geo(const TYPE& o) { Geo g = { o.dimension(), 0, o.offset(), 0 }; return g; } \
+  static TYPE* sized(long n) { return new TYPE((int)n); } \
+  static void resize1(TYPE& o, long n, bool ints) { if (ints) o.resize((int)n); else o.resize((int)n, (int)n); } \
+  static void resize2(TYPE& o, long n0, long n1, bool) { o.resize((int)n0, (int)n1); } \
+  static void put(TYPE& o, long i, long j, long v) { o((int)i, (int)j) = (ELEM)v; } };
+SPECIAL_TR(IG, KG, int)
+SPECIAL_TR(AG, KAG, double)
+SPECIAL_TR(AS, KAS, double)
+
 template <class A> static std::vector<A>& bag() { static std::vector<A> b; return b; }
 
 struct Slot { int kind; void* p; };
@@ -205,6 +238,8 @@ static bool region_bad(const void* p, size_t bytes) { return bytes && __asan_reg
 #define DISPATCH(K, ...) do { switch (K) { \
   case KV: { typedef IV A; __VA_ARGS__; } break; case KM: { typedef IM A; __VA_ARGS__; } break; \
   case KA: { typedef AV A; __VA_ARGS__; } break; case KS: { typedef IS A; __VA_ARGS__; } break; \
+  case KG: { typedef IG A; __VA_ARGS__; } break; case KAG: { typedef AG A; __VA_ARGS__; } break; \
+  case KAS: { typedef AS A; __VA_ARGS__; } break; case KP: { typedef DV A; __VA_ARGS__; } break; \
   default: { typedef IT A; __VA_ARGS__; } break; } } while (0)
 
 // ---- functions used for "passing to and returning from functions"
@@ -297,6 +332,8 @@ static bool locate(const char* p, bool zero_len, std::string& where, bool& live,
 }
 template <class A> static long grad_delta(A*, void*) { return -1; }
 template <> long grad_delta<AV>(AV* o, void* sp) { return (long)o->gradient_index() - (long)static_cast<Storage<double>*>(sp)->gradient_index(); }
+template <> long grad_delta<AG>(AG* o, void* sp) { return (long)o->gradient_index() - (long)static_cast<Storage<double>*>(sp)->gradient_index(); }
+template <> long grad_delta<AS>(AS* o, void* sp) { return (long)o->gradient_index() - (long)static_cast<Storage<double>*>(sp)->gradient_index(); }
 
 static void put_dims(std::ostream& os, int kind, long a, long b) { os << a; if (kind == KM) os << "x" << b; }
 
@@ -322,7 +359,7 @@ template <class A> static void describe(std::ostream& os, long k, A* o) {
     locate(reinterpret_cast<const char*>(p), c.empty(), where, live, phys);
     os << " at=" << where << " L=" << (live ? 1 : 0) << " len="; put_dims(os, kind, g.d0, g.d1);
     os << " str="; put_dims(os, kind, g.s0, g.s1);
-    if (kind == KA && sp && r && !r->dead) os << " gi=" << grad_delta(o, sp);
+    if (k_active(kind) && sp && r && !r->dead) os << " gi=" << grad_delta(o, sp);
     if (!c.empty()) {
       os << " v=";
       // only read what is certainly addressable
@@ -391,9 +428,9 @@ static Geo geo_of(const Slot& s) { Geo g = { 0, 0, 0, 0 }; DISPATCH(s.kind, g = 
 static long ncells(const Slot& s) { return (long)rel_cells(s.kind, geo_of(s)).size(); }
 
 // ---- view requests
-enum Fn { SL, ROW, COL, SUB, IDX, TR, DIAG, SOD, RSH, PERM, NFN };
-static const char* FNAME[NFN] = { "sl", "row", "col", "sub", "idx", "tr", "diag", "sod", "rsh", "perm" };
-static const size_t FARGS[NFN] = { 3, 4, 4, 6, 1, 0, 1, 2, 2, 2 };
+enum Fn { SL, ROW, COL, SUB, IDX, TR, DIAG, SOD, RSH, PERM, DM, IL, NFN };
+static const char* FNAME[NFN] = { "sl", "row", "col", "sub", "idx", "tr", "diag", "sod", "rsh", "perm", "dm", "il" };
+static const size_t FARGS[NFN] = { 3, 4, 4, 6, 1, 0, 1, 2, 2, 2, 0, 0 };
 struct Req { Fn fn; long a[6]; bool cst; };
 
 static bool range_ok(long len, long lo, long hi, long st) { return st >= 1 && st <= 8 && lo >= 0 && lo < len && hi >= 0 && hi < len; }
@@ -412,24 +449,29 @@ static bool view_ok(const Slot& b, const Req& r) {
   DISPATCH(b.kind, nosto = static_cast<A*>(b.p)->storage() == 0);
   if (nosto && !usable(b)) return false;    // an uncounted view (soft link, stale) whose data are not all there: user error
   switch (r.fn) {
-    case SL: return (b.kind == KV || b.kind == KA) && range_ok(g.d0, a[0], a[1], a[2]);
+    case SL: return k_vec(b.kind) && range_ok(g.d0, a[0], a[1], a[2]);
     case ROW: return b.kind == KM && a[0] >= 0 && a[0] < g.d0 && range_ok(g.d1, a[1], a[2], a[3]);
     case COL: return b.kind == KM && a[3] >= 0 && a[3] < g.d1 && range_ok(g.d0, a[0], a[1], a[2]);
     case SUB: return b.kind == KM && range_ok(g.d0, a[0], a[1], a[2]) && range_ok(g.d1, a[3], a[4], a[5]);
     case IDX: return b.kind == KM && a[0] >= 0 && a[0] < g.d0;
-    case TR: return b.kind == KM;
+    case TR: return b.kind == KM || k_symm(b.kind);
     case DIAG: if (b.kind == KM) return small(a[0]) && !(g.d0 == g.d1 && labs_(a[0]) == g.d0);
-               return (b.kind == KS || b.kind == KT) && small(a[0]) && labs_(a[0]) != g.d0;
-    case SOD: return (b.kind == KM || b.kind == KS || b.kind == KT) && small(a[0]) && small(a[1]);
+               return k_special(b.kind) && small(a[0]) && labs_(a[0]) != g.d0;
+    case SOD: return (b.kind == KM || k_special(b.kind)) && small(a[0]) && small(a[1]);
     case RSH: return b.kind == KV && small(a[0]) && small(a[1]);
     case PERM: return b.kind == KM && small(a[0]) && small(a[1]);
+    case DM: return (b.kind == KV || b.kind == KA) && g.s0 >= 1;
+    case IL: return b.kind != KAG && b.kind != KAS;      // of an ACTIVE special matrix inactive_link()/value() does not compile
     default: return false;
   }
 }
 static int view_kind(int src, Fn fn) {
   switch (fn) {
-    case SL: case SOD: return src;
-    case ROW: case COL: case IDX: case DIAG: return KV;
+    case SL: case SOD: case TR: return src;
+    case ROW: case COL: case IDX: return KV;
+    case DIAG: return src == KM ? KV : (k_active(src) ? KA : KV);
+    case DM: return src == KA ? KAG : KG;
+    case IL: return src == KA ? KP : src;
     default: return KM;
   }
 }
@@ -440,10 +482,36 @@ template <class C> static void apply_view(const Slot& b, const Req& r, C& c) {
     case KV: { IV& s = *static_cast<IV*>(b.p);
       if (r.fn == SL) { if (r.cst) c(const_cast<const IV&>(s)(stride((int)a[0], (int)a[1], (int)a[2]))); else c(s(stride((int)a[0], (int)a[1], (int)a[2]))); }
       else if (r.fn == RSH) c(s.reshape((int)a[0], (int)a[1]));
+      else if (r.fn == DM) c(s.diag_matrix());
+      else if (r.fn == IL) c(s.inactive_link());
       else throw BadOp();
     } break;
     case KA: { AV& s = *static_cast<AV*>(b.p);
       if (r.fn == SL) { if (r.cst) c(const_cast<const AV&>(s)(stride((int)a[0], (int)a[1], (int)a[2]))); else c(s(stride((int)a[0], (int)a[1], (int)a[2]))); }
+      else if (r.fn == DM) c(s.diag_matrix());
+      else if (r.fn == IL) c(value(s));
+      else throw BadOp();
+    } break;
+    case KP: { DV& s = *static_cast<DV*>(b.p);
+      if (r.fn == SL) { if (r.cst) c(const_cast<const DV&>(s)(stride((int)a[0], (int)a[1], (int)a[2]))); else c(s(stride((int)a[0], (int)a[1], (int)a[2]))); }
+      else if (r.fn == IL) c(s.inactive_link());
+      else throw BadOp();
+    } break;
+    case KG: { IG& s = *static_cast<IG*>(b.p);
+      if (r.fn == DIAG) c(s.diag_vector((int)a[0]));
+      else if (r.fn == SOD) c(s.submatrix_on_diagonal((int)a[0], (int)a[1]));
+      else if (r.fn == IL) c(s.inactive_link());
+      else throw BadOp();
+    } break;
+    case KAG: { AG& s = *static_cast<AG*>(b.p);
+      if (r.fn == DIAG) c(s.diag_vector((int)a[0]));
+      else if (r.fn == SOD) c(s.submatrix_on_diagonal((int)a[0], (int)a[1]));
+      else throw BadOp();
+    } break;
+    case KAS: { AS& s = *static_cast<AS*>(b.p);
+      if (r.fn == DIAG) c(s.diag_vector((int)a[0]));
+      else if (r.fn == SOD) c(s.submatrix_on_diagonal((int)a[0], (int)a[1]));
+      else if (r.fn == TR) c(s.T());
       else throw BadOp();
     } break;
     case KM: { IM& s = *static_cast<IM*>(b.p);
@@ -456,17 +524,21 @@ template <class C> static void apply_view(const Slot& b, const Req& r, C& c) {
         case DIAG: c(s.diag_vector((int)a[0])); break;
         case SOD: c(s.submatrix_on_diagonal((int)a[0], (int)a[1])); break;
         case PERM: c(s.permute((int)a[0], (int)a[1])); break;
+        case IL: c(s.inactive_link()); break;
         default: throw BadOp();
       }
     } break;
     case KS: { IS& s = *static_cast<IS*>(b.p);
       if (r.fn == DIAG) c(s.diag_vector((int)a[0]));
       else if (r.fn == SOD) c(s.submatrix_on_diagonal((int)a[0], (int)a[1]));
+      else if (r.fn == TR) c(s.T());
+      else if (r.fn == IL) c(s.inactive_link());
       else throw BadOp();
     } break;
     default: { IT& s = *static_cast<IT*>(b.p);
       if (r.fn == DIAG) c(s.diag_vector((int)a[0]));
       else if (r.fn == SOD) c(s.submatrix_on_diagonal((int)a[0], (int)a[1]));
+      else if (r.fn == IL) c(s.inactive_link());
       else throw BadOp();
     } break;
   }
@@ -496,6 +568,9 @@ template <class A> static void op_std_swap(A* x, A* b) { std::swap(*x, *b); }
 template <class A> static void op_adl_swap(A* x, A* b) { swap(*x, *b); }
 template <> void op_adl_swap<IS>(IS*, IS*) { throw BadOp(); }
 template <> void op_adl_swap<IT>(IT*, IT*) { throw BadOp(); }
+template <> void op_adl_swap<IG>(IG*, IG*) { throw BadOp(); }
+template <> void op_adl_swap<AG>(AG*, AG*) { throw BadOp(); }
+template <> void op_adl_swap<AS>(AS*, AS*) { throw BadOp(); }
 template <class A> static void op_vpush(long k, A* b) {
   std::vector<A>& v = bag<A>();
   v.push_back(*b);
@@ -510,6 +585,21 @@ template <class A> static void op_vpop(long k) {
 template <class A> static void op_write(A* x, long idx, long v, bool byval) {
   long i, j; cell_ij(Tr<A>::kind, Tr<A>::geo(*x), idx, i, j);
   if (byval) byval_write<A>(*x, i, j, v); else Tr<A>::put(*x, i, j, v);
+}
+
+static int kind_of_sfx(const std::string& sfx, bool allow_m) {
+  if (sfx == "") return KV; if (sfx == "m") return allow_m ? KM : -1; if (sfx == "a") return KA; if (sfx == "s") return KS;
+  if (sfx == "t") return KT; if (sfx == "g") return KG; if (sfx == "G") return KAG; if (sfx == "S") return KAS; if (sfx == "p") return KP;
+  return -1;
+}
+// function forms of a slice: k := new X(view_of_*(b, ..)) / x = view_of_*(b, ..)
+template <class A> static void fn_forms(int form, long k, Slot x, Slot b, const Req& r) {
+  A* s = static_cast<A*>(b.p);
+  int lo = (int)r.a[0], hi = (int)r.a[1], st = (int)r.a[2];
+  if (form == 4) add(k, new A(view_of_ref(*s, lo, hi, st)));
+  else if (form == 5) add(k, new A(view_of_val(*s, lo, hi, st)));
+  else if (form == 6) *static_cast<A*>(x.p) = view_of_ref(*s, lo, hi, st);
+  else *static_cast<A*>(x.p) = view_of_val(*s, lo, hi, st);
 }
 
 int main() {
@@ -564,6 +654,9 @@ int main() {
         if (a[1] < 0 || exists(a[1]) || !exts.count(a[2]) || exts[a[2]].fixed || a[3] < 0 || a[4] < -3 || a[3] + a[4] > exts[a[2]].n || a[3] >= exts[a[2]].n) BAD
         if (c == "ext") add(a[1], new IV(exts[a[2]].base + a[3], dimensions((int)a[4])));
         else add(a[1], new IV(wrap(exts[a[2]].base + a[3], (int)a[4])));
+      } else if (c == "fdiag" && na == 2) {
+        if (a[1] < 0 || exists(a[1]) || !exts.count(a[2]) || !exts[a[2]].fixed) BAD
+        add(a[1], new IG(exts[a[2]].fixed->diag_matrix()));
       } else if (c == "fsl" && na == 4) {
         if (a[1] < 0 || exists(a[1]) || !exts.count(a[2]) || !exts[a[2]].fixed || a[3] < 0 || a[4] > 3 || a[3] > a[4]) BAD
         add(a[1], new IV((*exts[a[2]].fixed)(range((int)a[3], (int)a[4]))));
@@ -613,7 +706,7 @@ int main() {
         if (!usable(x)) SKIP
         DISPATCH(x.kind, op_write(static_cast<A*>(x.p), a[2], a[3], false));
       } else if (c == "swp" && na == 2) {
-        if (!get(a[1], x) || !get(a[2], b) || x.kind != b.kind || x.kind == KS || x.kind == KT) BAD
+        if (!get(a[1], x) || !get(a[2], b) || x.kind != b.kind || k_special(x.kind)) BAD
         DISPATCH(x.kind, op_adl_swap(static_cast<A*>(x.p), static_cast<A*>(b.p)));
       } else if (c == "stdswp" && na == 2) {
         if (!get(a[1], x) || !get(a[2], b) || x.kind != b.kind) BAD
@@ -645,24 +738,24 @@ int main() {
         delete_pool();
       } else if (c.compare(0, 4, "newd") == 0) {
         std::string sfx = c.substr(4);
-        int kd = sfx == "" ? KV : sfx == "m" ? KM : sfx == "a" ? KA : sfx == "s" ? KS : sfx == "t" ? KT : -1;
+        int kd = kind_of_sfx(sfx, true);
         if (kd < 0 || na != 1 || a[1] < 0 || exists(a[1])) BAD
         DISPATCH(kd, add(a[1], new A()));
       } else if (c.compare(0, 5, "newfn") == 0) {
         std::string sfx = c.substr(5);
-        int kd = sfx == "" ? KV : sfx == "m" ? KM : sfx == "a" ? KA : sfx == "s" ? KS : sfx == "t" ? KT : -1;
+        int kd = kind_of_sfx(sfx, true);
         if (kd < 0 || na != 3 || a[1] < 0 || exists(a[1]) || a[2] < -3 || a[2] > 8) BAD
         DISPATCH(kd, add(a[1], new A(make<A>(a[2], a[3]))));
       } else if (c.compare(0, 3, "new") == 0) {
         std::string sfx = c.substr(3);
-        int kd = sfx == "" ? KV : sfx == "a" ? KA : sfx == "s" ? KS : sfx == "t" ? KT : -1;
+        int kd = kind_of_sfx(sfx, false);
         if (kd < 0 || na != 3 || a[1] < 0 || exists(a[1]) || a[2] < -3 || a[2] > 16) BAD
         DISPATCH(kd, { A* o = Tr<A>::sized(a[2]); add(a[1], o); fill(*o, a[3]); });
       } else if ((c == "rs" || c == "rsi") && na == 3) {
         if (!get(a[1], x) || x.kind == KM || a[2] > 16 || a[2] < -4) BAD
         DISPATCH(x.kind, { Tr<A>::resize1(*static_cast<A*>(x.p), a[2], c == "rsi"); fill(*static_cast<A*>(x.p), a[3]); });
       } else if ((c == "rs2" || c == "rsi2") && na == 4) {
-        if (!get(a[1], x) || x.kind == KV || x.kind == KA || a[2] > 8 || a[2] < -4 || a[3] > 8 || a[3] < -4) BAD
+        if (!get(a[1], x) || k_vec(x.kind) || a[2] > 8 || a[2] < -4 || a[3] > 8 || a[3] < -4) BAD
         DISPATCH(x.kind, { Tr<A>::resize2(*static_cast<A*>(x.p), a[2], a[3], c == "rsi2"); fill(*static_cast<A*>(x.p), a[4]); });
       } else {
         // <form><fn> x b args
@@ -681,10 +774,9 @@ int main() {
           if ((form == 4 || form == 5) && fn != SL) BAD
           if (a[1] < 0 || exists(a[1])) BAD
           if (form == 0) { CNew cn; cn.k = a[1]; apply_view(b, r, cn); }
-          else if (b.kind == KV) { IV* s = static_cast<IV*>(b.p);
-            add(a[1], form == 4 ? new IV(view_of_ref(*s, (int)r.a[0], (int)r.a[1], (int)r.a[2])) : new IV(view_of_val(*s, (int)r.a[0], (int)r.a[1], (int)r.a[2]))); }
-          else { AV* s = static_cast<AV*>(b.p);
-            add(a[1], form == 4 ? new AV(view_of_ref(*s, (int)r.a[0], (int)r.a[1], (int)r.a[2])) : new AV(view_of_val(*s, (int)r.a[0], (int)r.a[1], (int)r.a[2]))); }
+          else if (b.kind == KV) fn_forms<IV>(form, a[1], x, b, r);
+          else if (b.kind == KA) fn_forms<AV>(form, a[1], x, b, r);
+          else fn_forms<DV>(form, a[1], x, b, r);
         } else {
           if (!get(a[1], x)) BAD
           if ((form == 6 || form == 7) && fn != SL) BAD
@@ -694,10 +786,9 @@ int main() {
             if (!usable(x) || !usable(b)) SKIP
             if (form == 2) { CCopy cc; cc.x = x; r.cst = true; apply_view(b, r, cc); }
             else if (form == 3) { CMove cm; cm.x = x; apply_view(b, r, cm); }
-            else if (b.kind == KV) { IV* s = static_cast<IV*>(b.p); IV* t = static_cast<IV*>(x.p);
-              if (form == 6) *t = view_of_ref(*s, (int)r.a[0], (int)r.a[1], (int)r.a[2]); else *t = view_of_val(*s, (int)r.a[0], (int)r.a[1], (int)r.a[2]); }
-            else { AV* s = static_cast<AV*>(b.p); AV* t = static_cast<AV*>(x.p);
-              if (form == 6) *t = view_of_ref(*s, (int)r.a[0], (int)r.a[1], (int)r.a[2]); else *t = view_of_val(*s, (int)r.a[0], (int)r.a[1], (int)r.a[2]); }
+            else if (b.kind == KV) fn_forms<IV>(form, 0, x, b, r);
+            else if (b.kind == KA) fn_forms<AV>(form, 0, x, b, r);
+            else fn_forms<DV>(form, 0, x, b, r);
           }
         }
       }
